@@ -513,6 +513,8 @@ def c17(proj, rep, tier):
     backend.b1(proj, rep, ['numqi.dicke'], expect_match={'numqi.dicke.partial_trace_ABk_to_AB#0'})
     n = kdefects.ar3(proj, rep, ['numqi.dicke', 'numqi.utils'])
     rep.floor('AR3 call sites with bare-name arguments in dicke + utils', n, 7)
+    n = round3b.dom1(proj, rep)
+    rep.floor('DOM1 admissible-domain lower bounds of the Dicke table constructors', n, 6)
     rep.assume('orthonormality / permutation invariance of the Dicke vectors and the occupation-number identity itself '
                '(<r|D_a><D_b|s> summed over the other copies) are value-level: not decided')
 
